@@ -289,7 +289,7 @@ func bBind(intp *Interpreter) error {
 	if !ok {
 		return intp.e(eTypecheck, "bind: needs a procedure, not %T", obj)
 	}
-	intp.bindProc(obj)
+	intp.bindProc(obj, make(map[procID]bool))
 	return nil
 }
 
@@ -1389,7 +1389,23 @@ func equal(a, b Object) (bool, error) {
 	return a == b, nil
 }
 
-func (intp *Interpreter) bindProc(proc Procedure) {
+// bindProc replaces the executable names in proc which refer to built-in
+// operators by the operators themselves, recursively for nested procedures.
+//
+// Procedures can contain themselves (directly, indirectly and more than
+// once), so the procedures already visited are recorded in seen.  This bounds
+// both the depth of the recursion and the total amount of work by the number
+// of distinct procedures.
+func (intp *Interpreter) bindProc(proc Procedure, seen map[procID]bool) {
+	if len(proc) == 0 {
+		return
+	}
+	id := procID{&proc[0], len(proc)}
+	if seen[id] {
+		return
+	}
+	seen[id] = true
+
 	for i, elem := range proc {
 		switch obj := elem.(type) {
 		case Name:
@@ -1411,12 +1427,15 @@ func (intp *Interpreter) bindProc(proc Procedure) {
 				proc[i] = val
 			}
 		case Procedure:
-			// be careful to avoid infinite loops
-			proc[i] = nil
-			intp.bindProc(obj)
-			proc[i] = obj
+			intp.bindProc(obj, seen)
 		}
 	}
+}
+
+// procID identifies the storage of a procedure.
+type procID struct {
+	first *Object
+	n     int
 }
 
 // don't look!
